@@ -324,7 +324,20 @@ class SStr:
     def __eq__(self, o):
         if o is self:
             return True
+        if isinstance(o, str) and o == '':
+            ne = self.nonempty
+            return (not ne) if isinstance(ne, bool) else ~ne
         raise Unsupported('comparison of opaque text')
+
+    def __ne__(self, o):
+        r = self.__eq__(o)
+        return (not r) if isinstance(r, bool) else ~r
+
+    def strip(self, *a):
+        if a:
+            raise Unsupported('strip(chars) of opaque text')
+        ne = False if self.nonempty is False else None
+        return SStr(self.name + '.strip()', ne, src=self, op=('strip',))
 
     def __hash__(self):
         raise Unsupported('hash of opaque text')
